@@ -462,3 +462,59 @@ func (x *Exec) absOf(st *State, v Val) string {
 }
 
 var _ = fmt.Sprintf
+
+// Decoders and body well-formedness predicates of the DER algebra as contract vocabulary
+// (completeness contracts of the parser: C05 parse-after-sign, C16 grammar), and the assumed
+// contract of x509.ParseCertificates.
+func init() {
+	byteSlice := types.NewSlice(types.Typ[types.Uint8])
+	pred := func(name, fn string) {
+		specFuncs[name] = func(e *specEnv, args []SV) SV {
+			return SV{V: TV{SBool, app(fn, e.term(args[0]))}}
+		}
+	}
+	pred("oidbodyok", "g_oidbodyok")
+	pred("intbodyok", "g_intbodyok")
+	pred("utcbodyok", "g_utcbodyok")
+	specFuncs["oiddec"] = func(e *specEnv, args []SV) SV {
+		return SV{V: TV{SSeqI, app("g_oiddec", e.term(args[0]))}}
+	}
+	specFuncs["intdec"] = func(e *specEnv, args []SV) SV {
+		return SV{V: TV{SInt, app("g_intdec", e.term(args[0]))}}
+	}
+	specFuncs["bigdec"] = func(e *specEnv, args []SV) SV {
+		return SV{V: TV{SInt, app("g_bigdec", e.term(args[0]))}}
+	}
+	specFuncs["utcdec"] = func(e *specEnv, args []SV) SV {
+		return SV{V: TV{SInt, app("g_utcdec", e.term(args[0]))}}
+	}
+	// certsok(raw): x509.ParseCertificates accepts raw; then the certificates it returns are
+	// certsof(raw), each non-nil with a non-nil serial number
+	specFuncs["certsok"] = func(e *specEnv, args []SV) SV {
+		e.x.w.Decl("(declare-fun g_certsok (" + SSeqI + ") Bool)")
+		return SV{V: TV{SBool, app("g_certsok", e.term(args[0]))}}
+	}
+	specFuncs["certsof"] = func(e *specEnv, args []SV) SV {
+		e.x.w.Decl("(declare-fun g_certsof (" + SSeqI + ") " + SSeqI + ")")
+		return SV{V: TV{SSeqI, app("g_certsof", e.term(args[0]))}}
+	}
+	_ = byteSlice
+	ext("crypto/x509.ParseCertificates", "x509.ParseCertificates(raw): an error, or - exactly when certsok(raw) - the certificates certsof(raw) (a function of the bytes), each non-nil; never panics; allocation linear in the input (assumed)",
+		func(x *Exec, st *State, fr *Frame, cc *ssa.CallCommon, args []Val, instr ssa.Instruction) []Outcome {
+			_, raw := x.seqOf(st, args[0], cc.Args[0].Type())
+			x.w.Decl("(declare-fun g_certsok (" + SSeqI + ") Bool)")
+			x.w.Decl("(declare-fun g_certsof (" + SSeqI + ") " + SSeqI + ")")
+			bad := st.fork()
+			bad.assume(tNot(app("g_certsok", raw)))
+			st.assume(app("g_certsok", raw))
+			rt := cc.Signature().Results().At(0).Type()
+			certs := app("g_certsof", raw)
+			st.advanceTop()
+			x.typeFacts(st, rt, certs)
+			x.freshN++
+			q := fmt.Sprintf("q_i_%d", x.freshN)
+			st.assume(fmt.Sprintf("(forall ((%s Int)) (! (=> (and (<= 0 %s) (< %s %s)) (< 0 %s)) :pattern (%s)))", q, q, q, sLen(SSeqI, certs), sIdx(SSeqI, certs, q), sIdx(SSeqI, certs, q)))
+			zero := x.zeroTerm(rt)
+			return []Outcome{{bad, TupleV{TV{x.w.SortOf(rt), zero}, x.freshErr(bad, "x509err")}}, {st, TupleV{TV{x.w.SortOf(rt), certs}, nilErr()}}}
+		})
+}
